@@ -17,7 +17,10 @@ def create_reduced(p, q, _cache={}):
     v = new(mpq)
     v._mpq_ = p, q
     # Speedup integers, half-integers and other small fractions
-    if q <= 4 and abs(key[0]) < 100:
+    # (never store an object built from a float or mpf numerator that
+    # merely compares and hashes equal to the integer key)
+    if q <= 4 and abs(key[0]) < 100 and isinstance(key[0], int_types) and \
+        isinstance(key[1], int_types):
         _cache[key] = v
     return v
 
